@@ -22,6 +22,8 @@ pub struct Slice {
     /// length used in frames whose alphabet has 4 letters
     pub len4: usize,
     pub extra_rules: &'static str,
+    /// when set, these inputs are used instead of all strings over the alphabet
+    pub explicit_inputs: Option<Rc<Vec<String>>>,
 }
 
 pub struct Prepared {
@@ -87,7 +89,10 @@ pub fn for_each_grammar(slices: &[Slice], w: &mut Worker, stats: &mut Stats, mut
             }
             let l = if alpha.len() >= 4 { sl.len4 } else { sl.len };
             let alpha = alpha;
-            let inputs = Rc::new(gram::inputs(&alpha, l));
+            let inputs = match &sl.explicit_inputs {
+                Some(i) => i.clone(),
+                None => Rc::new(gram::inputs(&alpha, l)),
+            };
             let mut first_in_frame = true;
             for body in sl.bodies.iter() {
                 let mut text = if sl.whole_grammars { body.clone() } else { fr.text(body) };
@@ -151,11 +156,11 @@ pub fn standard(quick: bool, scale: i32) -> Vec<Slice> {
         // size <= 3 in the union of the three coordinate planes of the frame cube, L = 4 (3 with 4 letters)
         let frames = gram::frames(false, true);
         let l = if scale < 0 { 3 } else { 4 };
-        v.push(Slice { whole_grammars: false, extra_alpha: vec![], name: "size<=3".into(), frames, bodies: Rc::new(upto3), len: l, len4: 3, extra_rules: "" });
+        v.push(Slice { whole_grammars: false, extra_alpha: vec![], name: "size<=3".into(), frames, bodies: Rc::new(upto3), len: l, len4: 3, extra_rules: "", explicit_inputs: None });
     } else {
-        v.push(Slice { whole_grammars: false, extra_alpha: vec![], name: "size<=3/all-frames".into(), frames: gram::frames(true, true), bodies: Rc::new(upto3), len: 5, len4: 4, extra_rules: "" });
+        v.push(Slice { whole_grammars: false, extra_alpha: vec![], name: "size<=3/all-frames".into(), frames: gram::frames(true, true), bodies: Rc::new(upto3), len: 5, len4: 4, extra_rules: "", explicit_inputs: None });
         let plain: Vec<Frame> = gram::frames(false, false).into_iter().filter(|f| (f.ws <= 1 && f.sdef == 0) || (f.ws == 0 && f.ty == 0)).collect();
-        v.push(Slice { whole_grammars: false, extra_alpha: vec![], name: "size4/plain-frames".into(), frames: plain, bodies: Rc::new(by[4].clone()), len: 4, len4: 3, extra_rules: "" });
+        v.push(Slice { whole_grammars: false, extra_alpha: vec![], name: "size4/plain-frames".into(), frames: plain, bodies: Rc::new(by[4].clone()), len: 4, len4: 3, extra_rules: "", explicit_inputs: None });
     }
     v.push(Slice {
         whole_grammars: false,
@@ -165,7 +170,7 @@ pub fn standard(quick: bool, scale: i32) -> Vec<Slice> {
         bodies: Rc::new(gram::stack_transaction_bodies()),
         len: if quick { 4 } else { 5 },
         len4: if quick { 4 } else { 5 },
-        extra_rules: gram::STACK_TX_EXTRA_RULES,
+        extra_rules: gram::STACK_TX_EXTRA_RULES, explicit_inputs: None
     });
     v.push(Slice {
         whole_grammars: false,
@@ -175,7 +180,7 @@ pub fn standard(quick: bool, scale: i32) -> Vec<Slice> {
         bodies: Rc::new(gram::many_rules_bodies(if quick { 3 } else { 4 })),
         len: if quick { 3 } else { 4 },
         len4: 3,
-        extra_rules: gram::MANY_RULES_EXTRA,
+        extra_rules: gram::MANY_RULES_EXTRA, explicit_inputs: None
     });
     v.push(Slice {
         whole_grammars: false,
@@ -185,7 +190,7 @@ pub fn standard(quick: bool, scale: i32) -> Vec<Slice> {
         bodies: Rc::new(gram::builtin_bodies()),
         len: 3,
         len4: 3,
-        extra_rules: "",
+        extra_rules: "", explicit_inputs: None
     });
     v.push(Slice {
         whole_grammars: true,
@@ -195,7 +200,7 @@ pub fn standard(quick: bool, scale: i32) -> Vec<Slice> {
         bodies: Rc::new(gram::shadowed_builtin_grammars()),
         len: 3,
         len4: 3,
-        extra_rules: "",
+        extra_rules: "", explicit_inputs: None
     });
     v.push(Slice {
         whole_grammars: true,
@@ -205,7 +210,7 @@ pub fn standard(quick: bool, scale: i32) -> Vec<Slice> {
         bodies: Rc::new(gram::special_body_grammars()),
         len: if quick { 4 } else { 5 },
         len4: if quick { 4 } else { 5 },
-        extra_rules: "",
+        extra_rules: "", explicit_inputs: None
     });
     v.push(Slice {
         whole_grammars: true,
@@ -215,7 +220,7 @@ pub fn standard(quick: bool, scale: i32) -> Vec<Slice> {
         bodies: Rc::new(gram::wide_grammars()),
         len: 3,
         len4: 3,
-        extra_rules: "",
+        extra_rules: "", explicit_inputs: None
     });
     let redex: Vec<String> = gram::redex_bodies(if quick { 7 } else { gram::REDEX_TERMS.len() }).into_iter().map(|x| x.0).collect();
     v.push(Slice {
@@ -226,8 +231,22 @@ pub fn standard(quick: bool, scale: i32) -> Vec<Slice> {
         bodies: Rc::new(redex),
         len: if quick { 4 } else { 5 },
         len4: if quick { 3 } else { 4 },
-        extra_rules: gram::REDEX_EXTRA_RULES,
+        extra_rules: gram::REDEX_EXTRA_RULES, explicit_inputs: None
     });
+    {
+        let (grammars, inputs) = gram::long_token_cases();
+        v.push(Slice {
+            whole_grammars: true,
+            extra_alpha: vec![],
+            name: "long-tokens".into(),
+            frames: gram::frames(false, false).into_iter().filter(|f| f.sdef == 0 && f.ws == 0 && f.ty == 0).collect(),
+            bodies: Rc::new(grammars),
+            len: 0,
+            len4: 0,
+            extra_rules: "",
+            explicit_inputs: Some(Rc::new(inputs)),
+        });
+    }
     v
 }
 
@@ -239,9 +258,9 @@ pub fn small(quick: bool) -> Vec<Slice> {
     let by = gram::bodies_by_size(&leaves, &unary, 3);
     let upto2: Vec<String> = by.iter().take(3).flatten().cloned().collect();
     let mut v = vec![];
-    v.push(Slice { whole_grammars: false, extra_alpha: vec![], name: "size<=2/all-frames".into(), frames: gram::frames(true, true), bodies: Rc::new(upto2), len: if quick { 3 } else { 4 }, len4: 3, extra_rules: "" });
+    v.push(Slice { whole_grammars: false, extra_alpha: vec![], name: "size<=2/all-frames".into(), frames: gram::frames(true, true), bodies: Rc::new(upto2), len: if quick { 3 } else { 4 }, len4: 3, extra_rules: "", explicit_inputs: None });
     let plain: Vec<Frame> = gram::frames(false, false).into_iter().filter(|f| (f.ws <= 1 && f.sdef == 0) || (f.ws == 0 && f.ty == 0) || !quick).collect();
-    v.push(Slice { whole_grammars: false, extra_alpha: vec![], name: "size3/plain-frames".into(), frames: plain, bodies: Rc::new(by[3].clone()), len: if quick { 3 } else { 4 }, len4: 3, extra_rules: "" });
+    v.push(Slice { whole_grammars: false, extra_alpha: vec![], name: "size3/plain-frames".into(), frames: plain, bodies: Rc::new(by[3].clone()), len: if quick { 3 } else { 4 }, len4: 3, extra_rules: "", explicit_inputs: None });
     v.push(Slice {
         whole_grammars: false,
         extra_alpha: vec!['!'],
@@ -250,9 +269,23 @@ pub fn small(quick: bool) -> Vec<Slice> {
         bodies: Rc::new(gram::many_rules_bodies(3)),
         len: 3,
         len4: 3,
-        extra_rules: gram::MANY_RULES_EXTRA,
+        extra_rules: gram::MANY_RULES_EXTRA, explicit_inputs: None
     });
     let redex: Vec<String> = gram::redex_bodies(if quick { 4 } else { 7 }).into_iter().map(|x| x.0).collect();
-    v.push(Slice { whole_grammars: false, extra_alpha: vec![], name: "redexes".into(), frames: gram::frames(false, false).into_iter().filter(|f| !quick || f.sdef == 0).collect(), bodies: Rc::new(redex), len: if quick { 3 } else { 4 }, len4: 3, extra_rules: gram::REDEX_EXTRA_RULES });
+    v.push(Slice { whole_grammars: false, extra_alpha: vec![], name: "redexes".into(), frames: gram::frames(false, false).into_iter().filter(|f| !quick || f.sdef == 0).collect(), bodies: Rc::new(redex), len: if quick { 3 } else { 4 }, len4: 3, extra_rules: gram::REDEX_EXTRA_RULES, explicit_inputs: None });
+    {
+        let (grammars, inputs) = gram::long_token_cases();
+        v.push(Slice {
+            whole_grammars: true,
+            extra_alpha: vec![],
+            name: "long-tokens".into(),
+            frames: gram::frames(false, false).into_iter().filter(|f| f.sdef == 0 && f.ws == 0 && f.ty == 0).collect(),
+            bodies: Rc::new(grammars),
+            len: 0,
+            len4: 0,
+            extra_rules: "",
+            explicit_inputs: Some(Rc::new(inputs)),
+        });
+    }
     v
 }
